@@ -889,6 +889,240 @@ fn two_range(r: &mut Rng, s: &SPDC, n: usize) -> (&'static str, FrequencySpace) 
   }
 }
 
+// ------------------------------------------------------------------------------------------------
+// every public way a `HomTwoSourceResult<T>` leaves the crate: the struct fields, `HashMap::from(result)`
+// (channels by name), the way back `HomTwoSourceResult::from(map)`, and the derived serde representation
+// (a map with the field names as keys) and its `Deserialize`.  The statement's predicates are evaluated on
+// the channel values read through each of them.
+// ------------------------------------------------------------------------------------------------
+type TwoRes<T> = spdcalc::HomTwoSourceResult<T>;
+
+/// a channel value flattened to floats (`(Time, f64)` → `[seconds, value]`), plus the serde routes on the concrete type
+trait Chan: Clone + Default {
+  fn flat(&self) -> Vec<f64>;
+  fn unflat(v: &[f64]) -> Self;
+  fn to_json(r: &TwoRes<Self>) -> Option<serde_json::Value>;
+  fn from_json(v: serde_json::Value) -> Result<TwoRes<Self>, String>;
+}
+impl Chan for Vec<f64> {
+  fn flat(&self) -> Vec<f64> {
+    self.clone()
+  }
+  fn unflat(v: &[f64]) -> Self {
+    v.to_vec()
+  }
+  fn to_json(r: &TwoRes<Self>) -> Option<serde_json::Value> {
+    serde_json::to_value(r).ok()
+  }
+  fn from_json(v: serde_json::Value) -> Result<TwoRes<Self>, String> {
+    // from a `Value`, not from text: serde_json's text parser is not exactly rounded without `float_roundtrip`
+    serde_json::from_value(v).map_err(|e| e.to_string())
+  }
+}
+impl Chan for (Time, f64) {
+  fn flat(&self) -> Vec<f64> {
+    vec![*(self.0 / S), self.1]
+  }
+  fn unflat(v: &[f64]) -> Self {
+    (v.first().copied().unwrap_or(0.0) * S, v.get(1).copied().unwrap_or(0.0))
+  }
+  fn to_json(r: &TwoRes<Self>) -> Option<serde_json::Value> {
+    serde_json::to_value(r).ok()
+  }
+  fn from_json(v: serde_json::Value) -> Result<TwoRes<Self>, String> {
+    // from a `Value`, not from text: serde_json's text parser is not exactly rounded without `float_roundtrip`
+    serde_json::from_value(v).map_err(|e| e.to_string())
+  }
+}
+
+/// numbers of a JSON value in document order (`null` = a non-finite float)
+fn json_numbers(v: &serde_json::Value, out: &mut Vec<f64>) {
+  match v {
+    serde_json::Value::Number(x) => out.push(x.as_f64().unwrap_or(f64::NAN)),
+    serde_json::Value::Null => out.push(f64::NAN),
+    serde_json::Value::Array(a) => a.iter().for_each(|x| json_numbers(x, out)),
+    serde_json::Value::Object(m) => m.values().for_each(|x| json_numbers(x, out)),
+    _ => out.push(f64::NAN),
+  }
+}
+
+/// a by-name view as sorted `(name, flattened value)` entries
+type Named = Vec<(String, Vec<f64>)>;
+
+fn named_str(m: &Named) -> String {
+  let mut s = format!("{}", m.len());
+  for (k, v) in m.iter() {
+    s.push_str(&format!(" {} {}", k, count_fls(v)));
+  }
+  s
+}
+fn count_fls(v: &[f64]) -> String {
+  if v.is_empty() {
+    "0".into()
+  } else {
+    format!("{} {}", v.len(), fls(v))
+  }
+}
+fn three_str(t: &[Vec<f64>; 3]) -> String {
+  format!("{} {} {}", count_fls(&t[0]), count_fls(&t[1]), count_fls(&t[2]))
+}
+fn same_bits(a: &[Vec<f64>; 3], b: &[Vec<f64>; 3]) -> bool {
+  (0..3).all(|c| a[c].len() == b[c].len() && a[c].iter().zip(b[c].iter()).all(|(x, y)| x.to_bits() == y.to_bits()))
+}
+fn lookup3(m: &Named) -> Option<[Vec<f64>; 3]> {
+  let get = |k: &str| m.iter().find(|e| e.0 == k).map(|e| e.1.clone());
+  if m.len() != 3 {
+    return None;
+  }
+  Some([get("ss")?, get("ii")?, get("si")?])
+}
+
+/// `[ss, ii, si]` (flattened) as read through every route; `None` = the route does not deliver the three channels.
+/// Emits the K lines of the conversions (model: `TwoRes.toNamed` / `ofNamed` / `ofNamedStrict`).
+fn views<T: Chan>(ctx: &mut Ctx, r: &TwoRes<T>) -> Vec<(&'static str, Option<[Vec<f64>; 3]>)> {
+  use std::collections::HashMap;
+  let fields = [r.ss.flat(), r.ii.flat(), r.si.flat()];
+  let mut out: Vec<(&'static str, Option<[Vec<f64>; 3]>)> = vec![("fields", Some(fields.clone()))];
+  // struct -> HashMap<String, T>
+  let rc = r.clone();
+  let map: Option<HashMap<String, T>> = guard(move || HashMap::from(rc));
+  let named: Option<Named> = map.as_ref().map(|m| {
+    let mut v: Named = m.iter().map(|(k, x)| (k.clone(), x.flat())).collect();
+    v.sort_by(|a, b| a.0.cmp(&b.0));
+    v
+  });
+  ctx.k("hom2_named", &format!("into-hashmap {}", three_str(&fields)), &named.as_ref().map(named_str).unwrap_or("PANIC".into()));
+  out.push(("into-hashmap", named.as_ref().and_then(lookup3)));
+  // ... and back
+  let back: Option<TwoRes<T>> = map.and_then(|m| guard(move || TwoRes::<T>::from(m)));
+  out.push(("hashmap-roundtrip", back.map(|b| [b.ss.flat(), b.ii.flat(), b.si.flat()])));
+  // serde: the struct as a JSON map (serde_json keeps f64 exactly; non-finite values become null)
+  let finite = fields.iter().all(|c| c.iter().all(|x| x.is_finite()));
+  let js = T::to_json(r);
+  let jnamed: Option<Named> = js.as_ref().and_then(|v| v.as_object()).map(|o| {
+    let mut v: Named = o
+      .iter()
+      .map(|(k, x)| {
+        let mut f = vec![];
+        json_numbers(x, &mut f);
+        (k.clone(), f)
+      })
+      .collect();
+    v.sort_by(|a, b| a.0.cmp(&b.0));
+    v
+  });
+  if finite {
+    ctx.k("hom2_named", &format!("serde-json {}", three_str(&fields)), &jnamed.as_ref().map(named_str).unwrap_or("ERR:not-a-map".into()));
+  }
+  out.push(("serde-json", jnamed.as_ref().and_then(lookup3)));
+  if finite {
+    // serde_json's map is key-ordered (ii, si, ss): not the declaration order of the fields
+    let back = js.and_then(|v| T::from_json(v).ok());
+    out.push(("serde-roundtrip", back.map(|b| [b.ss.flat(), b.ii.flat(), b.si.flat()])));
+  }
+  out
+}
+
+/// `HomTwoSourceResult::from(map)` and serde `Deserialize` on complete, partial, permuted and over-complete maps
+/// built from the channel values of a real result (K only: model `TwoRes.ofNamed` / `ofNamedStrict`)
+fn unnamed_cases<T: Chan>(ctx: &mut Ctx, r: &TwoRes<T>) {
+  use std::collections::HashMap;
+  let fields = [("ss", r.ss.flat()), ("ii", r.ii.flat()), ("si", r.si.flat())];
+  if !fields.iter().all(|c| c.1.iter().all(|x| x.is_finite())) {
+    return;
+  }
+  let dflt = T::default().flat();
+  for variant in 0..4 {
+    let mut entries: Named = fields.iter().map(|(k, v)| (k.to_string(), v.clone())).collect();
+    // random order of insertion / of the JSON document
+    for i in (1..entries.len()).rev() {
+      let j = ctx.rng.below(i + 1);
+      entries.swap(i, j);
+    }
+    let tag = match variant {
+      0 => "complete",
+      1 => {
+        let drop = ctx.rng.below(entries.len());
+        entries.remove(drop);
+        "one-missing"
+      }
+      2 => {
+        let keep = ctx.rng.below(entries.len());
+        entries = vec![entries[keep].clone()];
+        "one-only"
+      }
+      _ => {
+        // keys that are not channels: the crossed name, another case, a longer name
+        let v = entries[ctx.rng.below(3)].1.clone();
+        let at = ctx.rng.below(entries.len() + 1);
+        entries.insert(at, (ctx.rng.pick(&["is", "SS", "ssi", "s", "i_i", "idler-idler"]).to_string(), v));
+        "extra-key"
+      }
+    };
+    ctx.count(&format!("two/unnamed/{}", tag));
+    let body = format!("{} {}", count_fls(&dflt), named_str(&entries));
+    let m: HashMap<String, T> = entries.iter().map(|(k, v)| (k.clone(), T::unflat(v))).collect();
+    let res = guard(move || TwoRes::<T>::from(m));
+    ctx.k(
+      "hom2_unnamed",
+      &format!("default {}", body),
+      &res.map(|b| three_str(&[b.ss.flat(), b.ii.flat(), b.si.flat()])).unwrap_or("PANIC".into()),
+    );
+    // serde `Deserialize` from a JSON map with these entries (every field required, unknown keys ignored)
+    let chan_json = |v: &[f64]| -> Option<serde_json::Value> {
+      let probe = TwoRes { ss: T::unflat(v), ii: T::default(), si: T::default() };
+      T::to_json(&probe).and_then(|j| j.get("ss").cloned())
+    };
+    let parts: Option<serde_json::Map<String, serde_json::Value>> = entries.iter().map(|(k, v)| chan_json(v).map(|j| (k.clone(), j))).collect();
+    if let Some(parts) = parts {
+      let got = match guard(move || T::from_json(serde_json::Value::Object(parts))) {
+        Some(Ok(b)) => three_str(&[b.ss.flat(), b.ii.flat(), b.si.flat()]),
+        Some(Err(e)) => match e.find("missing field `") {
+          Some(at) => format!("ERR:missing-field-{}", e[at + 15..].split('`').next().unwrap_or("?")),
+          None => format!("ERR:{}", e.replace(' ', "-")),
+        },
+        None => "PANIC".into(),
+      };
+      ctx.k("hom2_unnamed", &format!("strict {}", body), &got);
+    }
+  }
+}
+
+/// the statement's zero-delay identities on the visibilities `[seconds, V]` of the three channels as read through
+/// one view of the result of the real code
+fn vis_preds(ctx: &mut Ctx, view: &str, t: &Option<[Vec<f64>; 3]>, pur: Option<f64>, det: &str, zero_delays: bool) {
+  let det = format!("{} view={}", det, view);
+  ctx.count(&format!("two/view/{}", view));
+  let t = match t {
+    Some(t) if t.iter().all(|c| c.len() == 2) => t,
+    _ => {
+      ctx.s("C10.purity", false, "hom2/view-without-three-channels", &det);
+      return;
+    }
+  };
+  let (vss, vii) = (t[0][1], t[1][1]);
+  ctx.s("C10.purity", (vss - vii).abs() <= 1e-9, "hom2/vss-eq-vii", &format!("{} vss={:e} vii={:e}", det, vss, vii));
+  if let Some(p) = pur {
+    ctx.s("C10.purity", (vss - p).abs() <= 1e-9, "hom2/vss-eq-purity", &format!("{} vss={:e} purity={:e}", det, vss, p));
+    ctx.s("C10.purity", (vii - p).abs() <= 1e-9, "hom2/vii-eq-purity", &format!("{} vii={:e} purity={:e}", det, vii, p));
+  }
+  if zero_delays {
+    ctx.s("C10.purity", t[0][0] == 0.0 && t[1][0] == 0.0 && t[2][0] == 0.0, "hom2/identical-zero-delay", &det);
+  }
+}
+
+/// the zero entry of a rate series read through one view: `(½ − rate)/½` of ss and ii equal the purity
+fn series_zero_pred(ctx: &mut Ctx, view: &str, t: &[Vec<f64>; 3], zero_at: usize, p: f64, det: &str) {
+  let vss = (0.5 - t[0][zero_at]) / 0.5;
+  let vii = (0.5 - t[1][zero_at]) / 0.5;
+  ctx.s(
+    "C10.purity",
+    (vss - p).abs() <= 1e-9 && (vii - p).abs() <= 1e-9 && (vss - vii).abs() <= 1e-9,
+    "hom2/series-zero-delay-eq-purity",
+    &format!("{} view={} zero_at={} vss={:e} vii={:e} purity={:e}", det, view, zero_at, vss, vii, p),
+  );
+}
+
 fn two_part(ctx: &mut Ctx) {
   let sides: &[usize] = if ctx.thorough { &[4, 5, 8, 12, 16, 24] } else { &[4, 5, 6, 8] };
   for c in 0..ctx.n {
@@ -947,22 +1181,17 @@ fn two_part(ctx: &mut Ctx) {
           &fls(&[v.ss.1, v.ii.1, v.si.1]),
         );
         let norm = own_norm(&e[0]);
+        // S: V_ss = V_ii = purity (1e-9), zero delays — on the struct fields and on every by-name / serde view
+        let vw = views(ctx, v);
+        unnamed_cases(ctx, v);
         if norm > 0.0 {
-          // S: V_ss = V_ii = purity (1e-9)
-          ctx.s("C10.purity", (v.ss.1 - v.ii.1).abs() <= 1e-9, "hom2/vss-eq-vii", &format!("{} vss={:e} vii={:e}", det, v.ss.1, v.ii.1));
-          match purity(&e[0], n) {
-            Some(p) => {
-              ctx.s("C10.purity", (v.ss.1 - p).abs() <= 1e-9, "hom2/vss-eq-purity", &format!("{} vss={:e} purity={:e}", det, v.ss.1, p));
-              ctx.s("C10.purity", (v.ii.1 - p).abs() <= 1e-9, "hom2/vii-eq-purity", &format!("{} vii={:e} purity={:e}", det, v.ii.1, p));
-            }
-            None => ctx.count("two/svd-no-convergence"),
+          let pur = purity(&e[0], n);
+          if pur.is_none() {
+            ctx.count("two/svd-no-convergence");
           }
-          ctx.s(
-            "C10.purity",
-            *(v.ss.0 / S) == 0.0 && *(v.ii.0 / S) == 0.0 && *(v.si.0 / S) == 0.0,
-            "hom2/identical-zero-delay",
-            &det,
-          );
+          for (view, t) in vw.iter() {
+            vis_preds(ctx, view, t, pur, &det, true);
+          }
         }
       } else {
         ctx.s("C10.purity", false, "hom2/visibilities-panic", &det);
@@ -995,10 +1224,8 @@ fn two_part(ctx: &mut Ctx) {
             Some(v) => {
               let z = fl(0.0);
               ctx.k("hom2_vis", &format!("1 {} {} {} {} {} {}", gs, gs, z, z, z, es), &fls(&[v.ss.1, v.ii.1, v.si.1]));
-              ctx.s("C10.purity", (v.ss.1 - v.ii.1).abs() <= 1e-9, "hom2/vss-eq-vii", &format!("{} vss={:e} vii={:e}", detr, v.ss.1, v.ii.1));
-              if let Some(p) = pur {
-                ctx.s("C10.purity", (v.ss.1 - p).abs() <= 1e-9, "hom2/vss-eq-purity", &format!("{} vss={:e} purity={:e}", detr, v.ss.1, p));
-                ctx.s("C10.purity", (v.ii.1 - p).abs() <= 1e-9, "hom2/vii-eq-purity", &format!("{} vii={:e} purity={:e}", detr, v.ii.1, p));
+              for (view, t) in views(ctx, &v).iter() {
+                vis_preds(ctx, view, t, pur, &detr, false);
               }
             }
             None => ctx.s("C10.purity", false, "hom2/visibilities-panic", &detr),
@@ -1007,19 +1234,31 @@ fn two_part(ctx: &mut Ctx) {
       }
       if let Some(r) = &res {
         let ident = { let q = raw(&r1); q.0 == q.3 && q.1 == q.4 };
-        rate_bounds(ctx, &r.ss, &r.ii, &r.si, &delays, &det, "same", rk, [own_norm(&e[0]), own_norm(&e[1]), own_norm(&e[6]), own_norm(&e[7])], ident);
-        if own_norm(&e[0]) > 0.0 && r.ss.len() == delays.len() {
-          // the zero-delay identities read from the zero entry of the multi-delay series, wherever it sits
-          if let Some(p) = purity(&e[0], n) {
-            let vss = (0.5 - r.ss[zero_at]) / 0.5;
-            let vii = (0.5 - r.ii[zero_at]) / 0.5;
-            ctx.s(
-              "C10.purity",
-              (vss - p).abs() <= 1e-9 && (vii - p).abs() <= 1e-9 && (vss - vii).abs() <= 1e-9,
-              "hom2/series-zero-delay-eq-purity",
-              &format!("{} delays={:?} zero_at={} vss={:e} vii={:e} purity={:e}", det, delays, zero_at, vss, vii, p),
-            );
+        let norms = [own_norm(&e[0]), own_norm(&e[1]), own_norm(&e[6]), own_norm(&e[7])];
+        let vw = views(ctx, r);
+        unnamed_cases(ctx, r);
+        let fields = vw[0].1.clone().unwrap_or_default();
+        let pur = if own_norm(&e[0]) > 0.0 { purity(&e[0], n) } else { None };
+        for (view, t) in vw.iter() {
+          let detv = format!("{} view={}", det, view);
+          ctx.count(&format!("two/series-view/{}", view));
+          match t {
+            Some(t) if t.iter().all(|c| c.len() == delays.len()) => {
+              if *view != "fields" && same_bits(t, &fields) {
+                // bit-identical to the struct fields: every predicate has the outcome already reported for them
+                ctx.count(&format!("two/series-view/{}/identical-to-fields", view));
+                continue;
+              }
+              rate_bounds(ctx, &t[0], &t[1], &t[2], &delays, &detv, "same", rk, norms, ident);
+              // the zero-delay identities read from the zero entry of the multi-delay series, wherever it sits
+              if let Some(p) = pur {
+                series_zero_pred(ctx, view, t, zero_at, p, &format!("{} delays={:?}", det, delays));
+              }
+            }
+            _ => ctx.s("C10.bounds", false, "hom2/view-without-three-channels", &format!("{} delays={}", detv, delays.len())),
           }
+        }
+        if own_norm(&e[0]) > 0.0 && r.ss.len() == delays.len() {
           // the rate at a delay does not depend on the other delays of the list: entry = single-delay call
           let mut ok = true;
           let mut why = String::new();
@@ -1206,11 +1445,10 @@ fn two_loop_part(ctx: &mut Ctx) {
           Some(v) => {
             let z = fl(0.0);
             ctx.k("hom2_vis", &format!("1 {} {} {} {} {} {}", gs, gs, z, z, z, es), &fls(&[v.ss.1, v.ii.1, v.si.1]));
+            let vw = views(ctx, &v);
             if norm > 0.0 {
-              ctx.s("C10.purity", (v.ss.1 - v.ii.1).abs() <= 1e-9, "hom2/vss-eq-vii", &format!("{} vss={:e} vii={:e}", det, v.ss.1, v.ii.1));
-              if let Some(p) = pur {
-                ctx.s("C10.purity", (v.ss.1 - p).abs() <= 1e-9, "hom2/vss-eq-purity", &format!("{} vss={:e} purity={:e}", det, v.ss.1, p));
-                ctx.s("C10.purity", (v.ii.1 - p).abs() <= 1e-9, "hom2/vii-eq-purity", &format!("{} vii={:e} purity={:e}", det, v.ii.1, p));
+              for (view, t) in vw.iter() {
+                vis_preds(ctx, view, t, *pur, &det, false);
               }
             }
           }
@@ -1220,14 +1458,26 @@ fn two_loop_part(ctx: &mut Ctx) {
         match call_two_series(spdc, times.clone(), grid, integ) {
           Some(r) => {
             ctx.k("hom2", &format!("{} {} {} {} {}", gs, gs, delays.len(), fls(&delays), es), &fls(&[r.ss.clone(), r.ii.clone(), r.si.clone()].concat()));
+            let vw = views(ctx, &r);
             if norm > 0.0 {
-              // zero delay: the visibilities (½ − rate)/½ of the series are the purity as well
-              if let Some(p) = pur {
-                let vss = (0.5 - r.ss[0]) / 0.5;
-                let vii = (0.5 - r.ii[0]) / 0.5;
-                ctx.s("C10.purity", (vss - p).abs() <= 1e-9 && (vii - p).abs() <= 1e-9, "hom2/series-zero-delay-eq-purity", &format!("{} vss={:e} vii={:e} purity={:e}", det, vss, vii, p));
+              let fields = vw[0].1.clone().unwrap_or_default();
+              for (view, t) in vw.iter() {
+                let detv = format!("{} view={}", det, view);
+                match t {
+                  Some(t) if t.iter().all(|c| c.len() == delays.len()) => {
+                    if *view != "fields" && same_bits(t, &fields) {
+                      ctx.count(&format!("twoloop/series-view/{}/identical-to-fields", view));
+                      continue;
+                    }
+                    // zero delay: the visibilities (½ − rate)/½ of the series are the purity as well
+                    if let Some(p) = pur {
+                      series_zero_pred(ctx, view, t, 0, *p, &det);
+                    }
+                    rate_bounds(ctx, &t[0], &t[1], &t[2], &delays, &detv, "same", "loop", [norm, own_norm(&e[1]), own_norm(&e[6]), own_norm(&e[7])], ident);
+                  }
+                  _ => ctx.s("C10.bounds", false, "hom2/view-without-three-channels", &detv),
+                }
               }
-              rate_bounds(ctx, &r.ss, &r.ii, &r.si, &delays, &det, "same", "loop", [norm, own_norm(&e[1]), own_norm(&e[6]), own_norm(&e[7])], ident);
             }
           }
           None => ctx.s("C10.bounds", false, "hom2/rate-series-panic", &det),
